@@ -367,7 +367,11 @@ impl Check for VaultCheck {
             vec!["C01"]
         } else if check.starts_with("convert.") || check.starts_with("preview.") || check.starts_with("rate.") || check.starts_with("max.") {
             vec!["C05"]
-        } else if check.starts_with("auth.") || check.starts_with("allowance.") {
+        } else if check.starts_with("auth.") {
+            // somebody's shares or assets left without that party's consent: C02's clause, and at the same time C05's first
+            // sentence (a participant takes out value it did not put in)
+            vec!["C02", "C05"]
+        } else if check.starts_with("allowance.") {
             vec!["C02"]
         } else if check == "fail.no_trace" || check.starts_with("move.") {
             vec!["C01", "C05"]
